@@ -152,7 +152,7 @@ class C05(Property):
         geom, grid = build_grid(spec)
         fam = spec["family"]
         drops = spec["droplets"]
-        em = Emulsion([DiffuseDroplet(np.array(d["position"], float), d["radius"], d["interface_width"]) for d in drops])
+        em = Emulsion([DiffuseDroplet(*gen.as_given(d["position"], d["radius"], d), d["interface_width"]) for d in drops])
         f = em.get_phasefield(grid)
         a, b = spec["a"], spec["b"]
         field = ScalarField(grid, a * np.asarray(f.data, float) + b)
